@@ -31,7 +31,7 @@ Definition nc : bytes := bs "c".
 Example hyps_satisfiable :
   (cfg_ok cfg0 && fs_ok cfg0 fs0 && kernel_wf wld0 && names_distinct cfg0 wld0 && paths_distinct wld0
    && C02.forest_ok cfg0 fs0 && base_set_up cfg0 fs0
-   && no_stale_tmp cfg0 fs0 (CRebase nb_ []) && no_stale_tmp cfg0 fs0 (CRename na nc)
+   && no_stale_tmp cfg0 fs0 (CRename na nc)
    && (2 <=? length (read_layer_files cfg0 fs0))%nat) = true.
 Proof. vm_compute. reflexivity. Qed.
 Example breaking_satisfiable :
@@ -101,14 +101,45 @@ Example closed_needed :
   (fs_ok cfg0 fs_orphan, C02.forest_ok cfg0 fs_orphan, v_res v, C02.forest_ok cfg0 (wo_fs (v_after v)))
   = (false, true, RCrash, false).
 Proof. vm_compute. reflexivity. Qed.
-(* a stale temporary file is consumed by a successful rebase: rebase_exact calls that a change *)
+(* a stale temporary file is consumed by a successful rebase; since round 2 rebase_exact ignores
+   <layerconfig>.tmp, so this is the correct behaviour now (it was the witness of
+   C02_rebase_exact_refuted before) *)
 Definition fs_stale : fsT := fs0 ++ [(bs "/lc/layers/b/layerconfig.tmp", File (bs "old"))].
-Example no_stale_tmp_needed :
+Example rebase_consumes_stale_tmp :
   let w := MkWO fs_stale ks0 in
   let v := view_of_model cfg0 w env_plain (CRebase nb_ []) [] in
-  (fs_ok cfg0 fs_stale, no_stale_tmp cfg0 fs_stale (CRebase nb_ []), v_res v,
+  (fs_ok cfg0 fs_stale, v_res v, exists_ (wo_fs (v_after v)) (bs "/lc/layers/b/layerconfig.tmp"),
    C02.rebase_exact cfg0 fs_stale (wo_fs (v_after v)) nb_ [], C02.step_spec cfg0 w v)
-  = (true, false, ROk, false, false).
+  = (true, ROk, false, true, true).
+Proof. vm_compute. reflexivity. Qed.
+(* rename_exact has no such exemption: a stale temporary file in a child is consumed when the
+   child's layerconfig is rewritten, and rename_exact counts that as a change *)
+Example no_stale_tmp_needed :
+  let w := MkWO fs_stale ks0 in
+  let v := view_of_model cfg0 w env_plain (CRename na nc) [] in
+  (fs_ok cfg0 fs_stale, no_stale_tmp cfg0 fs_stale (CRename na nc), v_res v,
+   C02.forest_ok cfg0 (wo_fs (v_after v)),
+   C02.rename_exact cfg0 fs_stale (wo_fs (v_after v)) na nc, C02.step_spec cfg0 w v)
+  = (true, false, ROk, true, false, false).
+Proof. vm_compute. reflexivity. Qed.
+
+(* a name longer than NAME_MAX is a legal layer name; mkdir refuses it, nothing changes *)
+Definition long_name : bytes := repeat (nb 97) 300.
+Example long_name_refused :
+  let v := view_of_model cfg0 wld0 env_plain (CAdd long_name nb_ []) [] in
+  (legal_name long_name, v_res v, unchanged wld0 v, C02.step_spec cfg0 wld0 v) = (true, RFail, true, true).
+Proof. vm_compute. reflexivity. Qed.
+Example long_name_rename_refused :
+  let v := view_of_model cfg0 wld0 env_plain (CRename na long_name) [] in
+  (v_res v, unchanged wld0 v, C02.step_spec cfg0 wld0 v) = (RFail, true, true).
+Proof. vm_compute. reflexivity. Qed.
+
+(* somebody editing a layerconfig by hand (CEdit, not layercake) can of course break the forest:
+   manual edits are outside in_scope, also in pretend mode, which they ignore *)
+Example manual_edit_breaks :
+  let v := view_of_model cfg0 wld0 (MkEnv true NoFault false false []) (CEdit (bs "/lc/layers/b/layerconfig") (bs "base zzz" ++ nlb)) [] in
+  (v_res v, C02.forest_ok cfg0 (wo_fs (v_after v)), in_scope (MkEnv true NoFault false false []) (CEdit [] []) ROk)
+  = (ROk, false, false).
 Proof. vm_compute. reflexivity. Qed.
 
 (* ---- packaged for Properties/C02.v *)
@@ -124,14 +155,14 @@ Proof.
   split; vm_compute; reflexivity.
 Qed.
 
-Lemma rebase_exact_refuted : exists cfg w e a b0,
+Lemma rename_exact_refuted : exists cfg w e a b0,
   (cfg_ok cfg && fs_ok cfg (wo_fs w) && paths_distinct w && kernel_wf w && names_distinct cfg w
    && C02.forest_ok cfg (wo_fs w)) = true /\
   e_pretend e = false /\ e_fault e = NoFault /\
-  v_res (view_of_model cfg w e (CRebase a b0) []) = ROk /\
-  C02.rebase_exact cfg (wo_fs w) (wo_fs (v_after (view_of_model cfg w e (CRebase a b0) []))) a b0 = false.
+  v_res (view_of_model cfg w e (CRename a b0) []) = ROk /\
+  C02.rename_exact cfg (wo_fs w) (wo_fs (v_after (view_of_model cfg w e (CRename a b0) []))) a b0 = false.
 Proof.
-  exists cfg0, (MkWO fs_stale ks0), env_plain, nb_, [].
+  exists cfg0, (MkWO fs_stale ks0), env_plain, na, nc.
   split; [vm_compute; reflexivity|]. split; [reflexivity|]. split; [reflexivity|].
   split; vm_compute; reflexivity.
 Qed.
